@@ -65,6 +65,7 @@ def gen_classes(rng, n_comp=(1, 6), n_proc=(0, 4), handlers=0.5, ctrl=0.15, diam
 
 
 def gen_scenario(rng, ops_range=(1, 25), w=None, raises=0.0, dup_in_create=0.0, clear_disabled=True,
+                 raise_plain=False,
                  **ckw):
     w = {**dict(create=4, add=5, remove=4, delete=3, process=2, clear=0.5, addproc=2, rmproc=1, enable=1.5,
                 dispatch=1.5), **(w or {})}
@@ -81,18 +82,41 @@ def gen_scenario(rng, ops_range=(1, 25), w=None, raises=0.0, dup_in_create=0.0, 
         for _ in range(rng.randint(1, 2)):
             objs[oid] = t
             oid += 1
+    if raise_plain and rng.random() < 0.75:
+        # keep a single on_update listener object, so that a failure scripted into its on_update callback
+        # does not depend on the (unmodelled) order in which a set of listeners is visited
+        ups = [o for o, t in objs.items() if maps[t] and 'on_update' in maps[t]]
+        if ups:
+            keep = rng.choice(ups)
+            objs = {o: t for o, t in objs.items() if o == keep or o not in ups}
     for o, t in objs.items():
         lines.append(f'obj {o} class={t}')
     comp_objs = [o for o, t in objs.items() if t in ctys]
     proc_objs = [o for o, t in objs.items() if t in ptys]
     if raises and rng.random() < raises:
+        plain = EVS + ['on_update']
+        listeners = {ev: [o for o in objs if maps[objs[o]] and ev in maps[objs[o]]] for ev in plain}
+
+        def order_safe(o, meth):
+            # Python's set order of several listeners of one plain event is not modelled (listeners are
+            # passive): a scripted failure inside such a delivery would make that order observable, so a
+            # method reached through a plain event may raise only when its object is the event's sole listener
+            m = maps[objs[o]] or {}
+            return all(listeners[ev] == [o] for ev in plain if m.get(ev) == meth)
+        upd_safe = [o for o in listeners['on_update'] if order_safe(o, maps[objs[o]]['on_update'])]
+        if raise_plain and upd_safe and rng.random() < 0.7:
+            o = rng.choice(upd_safe)
+            lines.append(f'raise {o} {maps[objs[o]]["on_update"]} {rng.randint(0, 2)} {rng.choice(["E0", "Quit"])}')
         for _ in range(rng.randint(1, 2)):
             o = rng.choice(list(objs))
             m = maps[objs[o]]
             meths = (['process'] if objs[o] in ptys else []) + (
-                [m[e] for e in ('on_add', 'on_remove') if m and e in m])
+                [m[e] for e in ('on_add', 'on_remove') + ((('on_update',) + tuple(EVS)) if raise_plain else ())
+                 if m and e in m])
+            meths = [x for x in meths if order_safe(o, x)]
             if meths:
-                lines.append(f'raise {o} {rng.choice(meths)} {rng.randint(0, 1)} {rng.choice(["E0", "Quit"])}')
+                lines.append(f'raise {o} {rng.choice(meths)} {rng.randint(0, 2 if raise_plain else 1)} '
+                             f'{rng.choice(["E0", "Quit"])}')
     lines.append('ents ' + ','.join(map(str, ENTS)))
     attached = {}       # obj -> entity (generator-side approximation, to respect OneOwner)
     live = set()
